@@ -62,7 +62,9 @@ class Case:
 def helper_cases(prog, sl, f, depth=0, in_val='param', ctx_err=False):
     """decompose what `f` (Result<T, io::Error> -> Result<T, io::Error>) returns"""
     if in_val == 'param':
-        in_val = sl.local(f, 1) if f.argc >= 1 else None
+        in_val = ('paramidx', 1)
+    if isinstance(in_val, tuple) and in_val and in_val[0] == 'paramidx':
+        in_val = sl.local(f, in_val[1]) if f.argc >= in_val[1] else None
         in_val = strip(in_val) if in_val is not None else None
     out = []
     for d in _origin_defs(f, 0):
@@ -105,7 +107,56 @@ def _classify(prog, sl, f, bb, v, in_val, ctx_err, where, depth):
         if g is not None:
             return [Case('same', f, bb, ctx_err, v, where)] + \
                 helper_cases(prog, sl, g, depth + 1, in_val=None, ctx_err=True)
+    fw = _forwarded(prog, f, s, in_val) if depth < 4 else None
+    if fw:
+        # `helper(input)` — the input handed by value, unchanged, to workspace function(s) whose result is returned
+        # (an extension-trait method / a thin wrapper delegating to the real helper): the cases are the callee's,
+        # read on *its* parameter; 'same' there (its input returned unchanged) is 'same' here
+        out = []
+        for g, i in fw:
+            out.extend(helper_cases(prog, sl, g, depth + 1, in_val=('paramidx', i), ctx_err=ctx_err))
+        return out
     return [Case('other', f, bb, ctx_err, v, where)]
+
+
+def _forwarded(prog, f, s, in_val):
+    """s (a stripped value of `f`) is a direct call of workspace function(s) taking `in_val` by value in exactly one
+    argument position and returning a Result: [(callee, 1-based parameter index)], else None"""
+    if in_val is None or s[0] != 'call' or len(s) < 4 or not s[3] or s[3][0] != f.path:
+        return None
+    call = f.call_at(s[3][1])
+    if call is None or call.indirect:
+        return None
+    idxs = [i for i, a in enumerate(s[2]) if strip(a) == in_val]
+    if len(idxs) != 1:
+        return None
+    callees = prog.callee_fns(call)
+    if not callees:
+        return None
+    out = []
+    for g in callees:
+        if g.kind == 'Closure' or g is f or idxs[0] >= g.argc or not g.ret.startswith('std::result::Result<'):
+            return None
+        out.append((g, idxs[0] + 1))
+    return out
+
+
+def helper_family(prog, sl, f, depth=0):
+    """the NotFound-tolerating helper together with the workspace functions it merely forwards its input to
+    (`impl IoResultExt for io::Result<T> { fn or_default(self) { default_on_not_found(self) } }`): R2 judges the cases
+    of the whole chain, so every member *is* the helper as far as its call sites (R4) and its parameter (R5) go"""
+    out = {f.path}
+    if depth > 3 or f.argc < 1:
+        return out
+    in_val = strip(sl.local(f, 1))
+    for d in _origin_defs(f, 0):
+        if d[0] != 'call':
+            continue
+        s = strip(sl._call_value(f, d[3], set(), 0))
+        for g, i in (_forwarded(prog, f, s, in_val) or ()):
+            if i == 1:
+                out |= helper_family(prog, sl, g, depth + 1)
+    return out
 
 
 def _is_kind_of_error(x):
@@ -118,6 +169,30 @@ def _is_not_found(x):
     return x[0] == 'agg' and x[2] == 'NotFound' and (x[1] or '').endswith('io::ErrorKind')
 
 
+def _nf_select(val, oc):
+    """the tested boolean `val` (a view of a guard, private boolean helpers inlined) is a per-variant table over
+    `error.kind()` that has the outcome `oc` exactly for ErrorKind::NotFound: `matches!(e.kind(), NotFound)` however the
+    predicate around it is named, or its negation tested for false"""
+    if val[0] != 'select' or not _is_kind_of_error(val[1]) or not (val[2] or '').endswith('io::ErrorKind'):
+        return False
+    if not all(rv[0] == 'const' and isinstance(rv[1], bool) for _, rv in val[3]):
+        return False
+    return sorted(n for ns, rv in val[3] if rv[1] == oc for n in ns) == ['NotFound']
+
+
+def inverse_predicate(sl, g):
+    """`g(e: &io::Error) -> bool` written as one expression that is *false* exactly for ErrorKind::NotFound of its
+    parameter (`!matches!(e.kind(), NotFound)`, `matches!(e.kind(), <everything else>)`)"""
+    if g.ret != 'bool' or g.argc != 1:
+        return False
+    v, oc = strip(sl.local(g, 0)), True
+    while v[0] == 'un' and v[1] == 'Not':
+        v, oc = strip(v[2]), (not oc)
+    if v[0] != 'select' or not _is_kind_of_error(v[1]) or strip(strip(v[1])[2][0])[0] != 'param':
+        return False
+    return _nf_select(v, not oc)
+
+
 def fresh_ok_guard(prog, sl, case, pred_name):
     """(is_err, not_found, conds): the guards under which a fresh Ok is produced"""
     conds = conditions_ctx(prog, case.fn, case.bb, sl)
@@ -126,6 +201,8 @@ def fresh_ok_guard(prog, sl, case, pred_name):
     for c in conds:
         if c.kind == 'bool':
             for val, oc in c.views():
+                if _nf_select(val, oc):
+                    nf = True
                 if oc is not True:
                     continue
                 if val[0] == 'call' and val[1] == pred_name:
@@ -280,6 +357,8 @@ class ErrFlow:
     def __init__(self, prog, sl, roles):
         self.prog, self.sl, self.roles = prog, sl, roles
         self.helper = roles.get('NOT_FOUND_HELPER') or 'libcnb::util::default_on_not_found'
+        hf = prog.fns.get(self.helper)
+        self.helpers = helper_family(prog, sl, hf) if hf is not None else {self.helper}
         self.pred = roles.get('NOT_FOUND_PRED') or 'libcnb::util::is_not_found_error_kind'
         self.remover = roles.get('REMOVER') or 'libcnb::util::remove_dir_recursively'
         self._memo = {}
@@ -785,7 +864,7 @@ class ErrFlow:
                 return ('tolerated', 'only NotFound is turned into success (inline handler) on a %s'
                         % ('best-effort delete' if self.is_delete(origin) else 'read of an optional input'))
             return nxt
-        if self.helper in names:
+        if self.helpers & set(names):
             if idx != 0:
                 return ('unproven', 'unexpected argument position of the NotFound helper')
             if not self.is_delete(origin):
@@ -899,7 +978,11 @@ class ErrFlow:
             return None
         if cond.kind == 'bool':
             for val, oc in cond.views():
-                if val[0] != 'call' or not self._mentions(val, roots):
+                if not self._mentions(val, roots):
+                    continue
+                if _nf_select(val, oc):
+                    return 'confine-nf'
+                if val[0] != 'call':
                     continue
                 if val[1] == self.pred and oc is True:
                     return 'confine-nf'
@@ -1089,6 +1172,25 @@ class Carriers:
             return True
         return any(self.is_result(g.ret) or self.is_opt_result(g.ret) for g in self.closure_fns(t))
 
+    def item_type(self, t, depth=0):
+        """the type of the items a value of type t yields when iterated, where it can be read off the type; else None"""
+        t = strip_refs(t)
+        if depth > 8:
+            return None
+        head, args = split_type(t)
+        if head in CONTAINERS and args:
+            return args[-1] if head != 'std::vec::Vec' else args[0]
+        if head in ITEM_OF_FIRST and args:
+            return self.item_type(args[0], depth + 1)
+        if head == 'std::iter::Map' and len(args) == 2:
+            rets = {g.ret for g in self.closure_fns(args[1])}
+            if len(rets) == 1:
+                return rets.pop()
+            return self.fn_ret(args[1])
+        if head in FALLIBLE_STREAMS:
+            return 'std::result::Result<_, std::io::Error>'
+        return None
+
     def item_result(self, t, depth=0):
         """True: iterating a value of type t yields Result<_, E> items; False: it does not; None: unknown"""
         t = strip_refs(t)
@@ -1114,7 +1216,23 @@ class Carriers:
         if head == 'std::iter::Flatten' and len(args) == 1:
             # flattening Results yields their payloads (the flatten call itself is the reported consumer)
             inner = self.item_result(args[0], depth + 1)
-            return False if inner is True else None
+            if inner is True:
+                return False
+            # flattening a stream whose items are themselves iterable (`Option<ReadDir>` / `Vec<ReadDir>` /
+            # `Option<Result<..>>`): the items of the result are the items of the *item*
+            it = self.item_type(args[0], depth + 1)
+            if it is None:
+                return None
+            if self.is_opt_result(it):
+                return True
+            return self.item_result(it, depth + 1)
+        if head == 'std::iter::FlatMap' and len(args) == 3:
+            # FlatMap<I, U, F>: the items are those of U (what the closure returns, iterated)
+            if self.is_result(args[1]):
+                return False       # payloads; the flat_map call is the reported consumer of a closure returning Results
+            if self.is_opt_result(args[1]):
+                return True
+            return self.item_result(args[1], depth + 1)
         if head in ITEM_OF_FIRST and args:
             return self.item_result(args[0], depth + 1)
         if head == 'std::iter::Chain' and len(args) == 2:
